@@ -287,4 +287,5 @@ func (w *World) onReverted(n *Node, e *blockEntry, ru consensus.RevertUpdate, pr
 		return
 	}
 	w.lightsReverted(n, e, ru)
+	w.advReverted(n, e, ru)
 }
